@@ -172,6 +172,18 @@ def py_req(r):
     return d
 
 
+def wire_form(r):
+    if r[0] == 'multi':
+        return all(wire_form(m) for m in r[1])
+    if r[0] == 'write':
+        return len(r[4]) > 0 and r[2] in TYN      # an undefined type code has no producible / parseable typed data
+    if r[0] == 'writef':
+        return len(r[5]) > 0 and r[2] in TYN
+    if r[0] == 'set':
+        return len(r[2]) > 0
+    return True
+
+
 def dump_impl(attrs):
     out = []
     for att in attrs:
@@ -224,12 +236,39 @@ class Impl:
         logix.Logix.MAX_BYTES = maxb
         logix.setup(tags=tg)
         self.mr = device.lookup(2, 1)
+        self.wired = 0
 
     def close(self):
         self.logix.Logix.MAX_BYTES = self.saved_max
 
     def request(self, r):
+        """The request travels as the simulator receives it: produced to wire bytes, parsed by the Message Router's own
+        parser (as enip_srv_tcp / logix.process do), executed; the observation is the produced reply's bytes."""
+        import cpppo
+        from cpppo import dotdict
         d = py_req(r)
+        if not wire_form(r):
+            # a write carrying no data at all has no parseable wire form (the session parser rejects it: C06/C08); it can
+            # only reach request() as a dict, so that is how it is issued
+            try:
+                self.mr.request(d)
+                return bytes(d.input), d
+            except Exception as e:
+                self.last_exc = e
+                return None, d
+        try:
+            wire = bytes(self.logix.Logix.produce(d))
+            d = dotdict()
+            src = cpppo.chainable(wire)
+            with self.mr.parser as m:
+                for _ in m.run(source=src, data=d):
+                    pass
+            if src.peek() is not None or not m.terminal:
+                raise ValueError('request bytes not parsed completely')
+            self.wired += 1
+        except Exception as e:
+            self.last_exc = e
+            return None, d
         try:
             self.mr.request(d)
             b = bytes(d.input)
